@@ -77,7 +77,7 @@ def run_cases(ctx, exe, label, cases):
         il, ml = impl[pos:pos + len(ops)], model[pos:pos + len(ops)]
         pos += len(ops)
         if len(il) < len(ops):
-            ctx.violation("implementation stopped on a parallel-Jacobian case (%s): rc=%s %s" % (label, rc, err[-1200:]),
+            ctx.violation("implementation stopped on a parallel-Jacobian case (%s): rc=%s %s" % (label, rc, vcheck.san_summary(err)),
                           {"kind": "crash", "build": label, "ops": ops, "stderr": err[-3000:], "impl": il})
             break
         verdict = None if meta.get("nonfinite") else c02.oracle_case(ops, meta, il)
